@@ -6,6 +6,18 @@ ALL = ["C%02d" % i for i in range(1, 21)]
 
 # id -> (engine, technique, level text, level note, design_ref)
 CHECKS = {
+    "C01": ("E1", "bounded-exhaustive enumeration of small multigraphs x algorithms x directions x orientations on the real search entry points vs structural walk/tree clauses",
+            "Every labelled multigraph of the stated families (parallel edges, self loops, dead ends, disconnected parts) is searched with Dijkstra, A* (admissible and inadmissible weight factors), single-via KSP, forward and reverse, vertex- and edge-oriented over every ordered pair of distinct edges; every returned route and tree is checked against the contiguity / rooted-tree clauses. Yen's routes are put through the same clauses inside the sandboxed C13 check.",
+            "Trusted: clause checkers in props/search_common.rs. Reverse direction only for vertex orientation (no repository entry point issues an edge-oriented reverse search). Hash order only breaks ties.", "§4.1"),
+    "C02": ("E1", "bounded-exhaustive enumeration of multigraphs x unit/weight/rate/surcharge configurations on the real search vs Bellman-Ford over reference edge costs",
+            "For every enumerated network and configuration the total cost of routes[0] is compared with the Bellman-Ford minimum over independently computed reference edge costs (intended weights, rates, physical units); Dijkstra everywhere, A* (wf<=1) on metric networks, forward and reverse, vertex and edge orientation; a SearchApp layer checks that weights/rates given in the query replace the configured ones.",
+            "Trusted: refmodel (Bellman-Ford, unit factors). Tolerance 1e-8 in base units, 3e-3 where the repository's unit tables (good to ~2e-4) intervene.", "§4.2"),
+    "C03": ("E1", "bounded-exhaustive enumeration of multigraphs x speed/heading/delay/unit/initial-state configurations; every returned route walked against reference accumulation",
+            "Every route returned by Dijkstra, A*, single-via KSP (incl. the re-oriented reverse half), both directions and orientations, is walked edge by edge: reported state = reference accumulation of length, length/speed and classified turn delay in the configured units, each edge's cost = weighted rated change of the reported state, monotone distance/time, declared initial state.",
+            "Trusted: refmodel arithmetic in world/sw.rs. Edge-oriented origin/destination edges may follow the zero-cost convention (statement's exception).", "§4.3"),
+    "C05": ("E1", "bounded-exhaustive enumeration of (also disconnected) multigraphs x edge-local restriction sets on the real search vs BFS reachability / Bellman-Ford labels",
+            "For every enumerated network, restriction set, algorithm, direction and orientation: Ok with a valid non-empty route iff the destination is BFS-reachable over permitted edges, otherwise exactly the no-path error; destination-less searches return exactly the reachable set with least-cost labels.",
+            "Trusted: refmodel BFS/Bellman-Ford. Restrictions are an edge-set frontier model supplied by the harness (the repository's own restriction models are exercised in C04).", "§4.5"),
     "C09": ("E1", "bounded-exhaustive enumeration of the complete finite unit-pair space on the real code vs physical reference factors",
             "Every ordered unit pair of all six families and every constructor unit triple is executed on the implementation and compared with SI factors, linearity, identity and round-trip laws; the pair space is finite and covered completely.",
             "Trusted: reference factors in harness/src/refmodel/units.rs; magnitudes outside the alphabet follow from linearity of constant-factor tables.", "§4.9"),
